@@ -18,6 +18,12 @@ def run(res):
     if rc != 0 or bad or not dcases:
         res.mismatches.append({"family": "dispatch", "error": "harness exit %d" % rc, "stderr": err[-2000:], "bad": bad[:3]})
         return
+    rev = [c for c in dcases if c.get("reverse_naming")]
+    dcases = [c for c in dcases if not c.get("reverse_naming")]
+    for c in rev:
+        if c.get("oracle_fail"):
+            res.violations.append({"what": c["oracle_fail"], "case": c, "family": "dispatch/reverse", "signature": "dispatch-reverse:%d:%s" % (c["fmt"], c["reverse_option_first"])})
+    res.add_cov(reverse_naming_cases=len(rev))
     for c in dcases:
         if c.get("oracle_fail"):
             res.violations.append({"what": c["oracle_fail"], "case": c, "family": "dispatch", "signature": "dispatch:" + json.dumps({k: c[k] for k in ("regs", "fmt", "aliases", "name")}, sort_keys=True)})
